@@ -50,6 +50,33 @@ class ServerAsyncioProxy:
         return t
 
 
+class _ClientNS:
+    def __init__(self, outer):
+        self._outer = outer
+
+    def __getattr__(self, name):
+        return getattr(self._outer._real.client, name)
+
+    def connect(self, uri, **kw):
+        w = self._outer._world
+        if w.use_tcp:
+            return self._outer._real.client.connect(uri, **kw)
+        return self._outer._real.unix_connect(w.sock, **kw)
+
+
+class WebsocketsProxy:
+    """Stands in for the name `websockets` inside the client service module: connect() goes to the world's UNIX-domain
+    socket (same websocket protocol, but no TCP ports: thousands of short connections per run would otherwise pile up in
+    TIME_WAIT and exhaust the ephemeral port range), everything else is the real package."""
+
+    def __init__(self, real, world):
+        self._real, self._world = real, world
+        self.client = _ClientNS(self)
+
+    def __getattr__(self, name):
+        return getattr(self._real, name)
+
+
 class World:
     def __init__(self, repo, base, echo_cap=1.5, cleanup_delay=0.0):
         fs.setup_env(repo)
@@ -74,6 +101,9 @@ class World:
         sm.asyncio = self.sproxy
         self.cproxy = ClientAsyncioProxy(echo_cap)
         cservice.asyncio = self.cproxy
+        self.sock = str(self.base / "ws.sock")
+        self.use_tcp = False
+        cservice.websockets = WebsocketsProxy(websockets, self)
         self.server = None
         self.port = None
         self.service = None       # client Service object kept between operations (keep=True)
@@ -82,15 +112,12 @@ class World:
     async def start_server(self):
         self.sfm._PROGRAM_PATH = self.sdir
         self.connector._sse_service_manager = self.sm.ServicesManager()
-        for attempt in range(50):
-            try:
-                self.server = await self.websockets.serve(self.connector.handler, "127.0.0.1", 0, max_size=None)
-                break
-            except OSError:         # ephemeral ports momentarily exhausted by other runs on the machine
-                if attempt == 49:
-                    raise
-                await asyncio.sleep(0.2)
-        self.port = self.server.sockets[0].getsockname()[1]
+        try:
+            os.unlink(self.sock)
+        except OSError:
+            pass
+        self.server = await self.websockets.unix_serve(self.connector.handler, self.sock, max_size=None)
+        self.port = 0
         self.global_config.ClientConfig.SERVER_URI = "ws://127.0.0.1:%d" % self.port
 
     async def stop_server(self, graceful=True):
@@ -196,6 +223,7 @@ class World:
         await self.stop_server()
         self.sm.asyncio = asyncio
         self.cservice.asyncio = asyncio
+        self.cservice.websockets = self.websockets
 
     # ------------------------------------------------------------------ projections
     def client_state(self, sid):
